@@ -8,7 +8,7 @@ use vh::{json, Cli, Report, Rng};
 fn main() {
     let cli = Cli::parse();
     let mut rep = Report::new("C12", &cli);
-    rep.note("rule", json!("case = VisualSort / BatchVisualSort (1x1 and 2x2 workers) with a random option combination (Euclidean/cosine threshold, IoU/Mahalanobis, min votes 1..3, minimal track length 1..4, max observations 1..8, use/collect quality, minimal area, own-area shares 0/0.3/0.6) x history of 30..80 calls from the presets lookalikes / crossing / crowd / convoy / random with gaps (occlusion), missing features and qualities drawn from a grid that hits the use/collect thresholds exactly. Before every call the galleries (stored features + qualities), collected counts, last boxes and filter states are read from the store; an independent reference recomputes usability, per-pair votes (stored features within the distance threshold), claim weights sum(max seen - d) and checks: a record reports visual voting only for a qualifying claim of the greatest-weight claimant; the clear top claimant of its own clear best claim gets the track with visual voting; a claimant is never attached to a track it lost; detections without any claim are an optimal gated positional assignment among tracks not taken by appearance (same oracle as C02). Every threshold comparison on a computed quantity has a 1e-5..1e-4 band inside which the call is counted as undecidable. Non-trivial call: at least one qualifying appearance claim; distinct by call hash."));
+    rep.note("rule", json!("case = VisualSort / BatchVisualSort (1x1 and 2x2 workers; half of the batch histories submit multi-scene batches over 2..3 scenes that mostly share one image region) with a random option combination (Euclidean/cosine threshold, IoU/Mahalanobis, min votes 1..3, minimal track length 1..4, max observations 1..8, use/collect quality, minimal area, own-area shares 0/0.3/0.6) x history of 30..80 calls from the presets lookalikes / crossing / crowd / convoy / random with gaps (occlusion), missing features and qualities drawn from a grid that hits the use/collect thresholds exactly. Before every call the galleries (stored features + qualities), collected counts, last boxes and filter states are read from the store; an independent reference recomputes usability, per-pair votes (stored features within the distance threshold), claim weights sum(max seen - d) and checks: a record reports visual voting only for a qualifying claim of the greatest-weight claimant; the clear top claimant of its own clear best claim gets the track with visual voting; a claimant is never attached to a track it lost; detections without any claim are an optimal gated positional assignment among tracks not taken by appearance (same oracle as C02). Every threshold comparison on a computed quantity has a 1e-5..1e-4 band inside which the call is counted as undecidable. Non-trivial call: at least one qualifying appearance claim; distinct by call hash."));
     rep.note("assumptions", json!(["own-area shares are taken from the library function (C15 judges them)", "workloads avoid the input class of the recorded C15 finding when own-area thresholds are enabled"]));
     // ---- layer A: the VisualVoting engine on generated result streams (votes, weights over ALL emitted distances,
     // contests, positional fallback), checked by the statement-level reference shared with C17
@@ -75,9 +75,12 @@ fn main() {
             cfg.shards = k;
             cfg.voting_shards = k;
         }
+        // half of the batch histories submit multi-scene batches (2..3 scenes, mostly occupying the same image region):
+        // every scene of a batch is judged on its own, against the pre-batch snapshot
+        let multi = kind == Kind::BatchVisual && rng.chance(0.5);
         let w = WorldOpts {
-            scenes: 1 + rng.usize(2),
-            same_region: rng.chance(0.3),
+            scenes: if multi { 2 + rng.usize(2) } else { 1 + rng.usize(2) },
+            same_region: rng.chance(if multi { 0.7 } else { 0.3 }),
             preset: *rng.pick(&["lookalikes", "crossing", "crowd", "convoy", "random", "lookalikes"]),
             rotated: rng.chance(0.2),
             features: true,
@@ -90,28 +93,44 @@ fn main() {
             low_conf: rng.chance(0.15),
             vary_nobj: false,
         };
-        let h = HistOpts { len: if cli.small { 6 } else { 30 + rng.usize(51) }, lifecycle_ops: false, clear_wasted: false, auto_waste_ops: false, batches: false, empty_calls: false };
+        let h = HistOpts { len: if cli.small { 6 } else { 30 + rng.usize(51) }, lifecycle_ops: false, clear_wasted: false, auto_waste_ops: false, batches: multi, empty_calls: false };
         let ops = gen_history(&mut rng, &w, &h);
         let mut trk = AnyTracker::new(&cfg);
         rep.eval();
         rep.count(&format!("histories/{:?}", kind));
+        if multi {
+            rep.count("histories_with_multi_scene_batches");
+        }
+        // flatten: one judged call per (operation, scene)
+        let mut calls: Vec<(usize, u64, Vec<Det>, Vec<Rec>, std::rc::Rc<Vec<LiveTrack>>, usize)> = vec![];
         for (ci, op) in ops.iter().enumerate() {
-            let (scene, dets) = match op {
-                Op::Predict { scene, dets } => (*scene, dets),
-                _ => continue,
-            };
-            if dets.is_empty() {
-                continue;
+            match op {
+                Op::Predict { scene, dets } if !dets.is_empty() => {
+                    let pre = std::rc::Rc::new(trk.live());
+                    let epoch = trk.epoch(*scene) + 1;
+                    let recs = trk.predict(*scene, dets);
+                    calls.push((ci, *scene, dets.clone(), recs, pre, epoch));
+                }
+                Op::Batch(b) => {
+                    let pre = std::rc::Rc::new(trk.live());
+                    let epochs: Vec<usize> = b.iter().map(|(s, _)| trk.epoch(*s) + 1).collect();
+                    let out = trk.predict_batch(b);
+                    for ((s, dets), e) in b.iter().zip(epochs) {
+                        let recs = out.iter().find(|x| x.0 == *s).map(|x| x.1.clone()).unwrap_or_default();
+                        calls.push((ci, *s, dets.clone(), recs, pre.clone(), e));
+                    }
+                }
+                _ => {}
             }
-            let pre = trk.live();
-            let epoch = trk.epoch(scene) + 1;
-            let recs = trk.predict(scene, dets);
+        }
+        for (ci, scene, dets, recs, pre, epoch) in calls {
+            let (dets, pre) = (&dets, &*pre);
             if recs.len() != dets.len() {
                 rep.violation("C12/record-count", idx, json!({"call": ci}));
                 break;
             }
             rep.count("calls");
-            match check_visual_call(&cfg, scene, epoch, dets, &recs, &pre) {
+            match check_visual_call(&cfg, scene, epoch, dets, &recs, pre) {
                 VVerdict::Ok { claims, contests, visual_attachments, positional_checked, positional_nontrivial } => {
                     rep.count("calls_decided");
                     rep.add("qualifying_claims", claims as u64);
